@@ -189,12 +189,8 @@ def predicates(c):
         for mc in (False, True):
             g = build(c, masked=False, folded='no', mask_corners=mc)
             b1 = apply(op, args, g.fold())
-            b2 = apply(op, args, g)
-            folded_flag_1 = bool(b1.folded)
-            b2 = b2.fold()
-            r = compare(b1, b2, indata)
-            r['flag_after_op_on_folded'] = folded_flag_1
-            P['fold_mc%d' % int(mc)] = r
+            b2 = apply(op, args, g).fold()
+            P['fold_mc%d' % int(mc)] = compare(b1, b2, indata)
     return P
 
 def compare(x, y, indata):
@@ -208,6 +204,7 @@ def compare(x, y, indata):
         err = float('inf')
     return {'shape_ok': True, 'err': err, 'scale': float(max(np.abs(dx[both]).max() if both.any() else 0.0, 1e-300)),
             'mask_equal': bool((mx == my).all()), 'n_compared': int(both.sum()),
+            'folded': [x.folded if isinstance(x.folded, str) else bool(x.folded), y.folded if isinstance(y.folded, str) else bool(y.folded)],
             'ids': [None if x.pop_ids is None else list(x.pop_ids), None if y.pop_ids is None else list(y.pop_ids)]}
 
 def main():
